@@ -123,5 +123,10 @@ def main():
     return 0 if allok else 2
 
 
+def run(tier="quick"):
+    """Entry point for ./check selftest."""
+    return main()
+
+
 if __name__ == "__main__":
     sys.exit(main())
